@@ -18,7 +18,11 @@ def _arg_variants(r, shape, q):
     if R > 1 and C > 1:
         r0, c0 = r.randrange(R - 1), r.randrange(C - 1)
         out.append(({"k": "m", "x": [[[rr, cc] for cc in range(c0, C)] for rr in range(r0, R)]}, r.choice(["ndarray", "fortran"])))
-    return out if not q else out[:2] + out[3:5]
+    out.append(({"k": "l", "x": ws[: max(1, len(ws) // 2)]}, "object"))
+    out.append(({"k": "l", "x": list(reversed(ws))}, "view"))
+    out.append((full2d, "view"))
+    out.append(({"k": "s", "x": r.choice(ws)}, "zerod"))
+    return out if not q else out[:2] + out[3:5] + out[-4:]
 
 
 def cases(tier, r):
@@ -36,7 +40,7 @@ def cases(tier, r):
             if C > 26:
                 break  # the rotated plate would need more than 26 row letters
             ps.append({"x": "rot", "shape": list(sh), "wells": arg, "present": present})
-        seeds = [0, 1, r.randint(2, 10**6)] if q else [0, 1, 2, 3, r.randint(4, 10**6), r.randint(4, 10**6)]
+        seeds = [0, 1, r.randint(2, 10**6), 2**32 - 1] if q else [0, 1, 2, 3, r.randint(4, 10**6), r.randint(4, 10**6), 2**32 - 1, 2**31]
         for seed in seeds:
             for mode in ("full", "row", "column", "default"):
                 arg, present = r.choice(_arg_variants(r, sh, False))
